@@ -142,6 +142,29 @@ EvalVP(t, env, rules) ==
                 ELSE [comps |-> core.comps \cup vcs,
                       rows |-> { [n \in AllNames(core) \cup { c.n : c \in vcs } |->
                                     IF n \in AllNames(core) THEN r[n] ELSE GroupV(rules[n], grp(r), n, (CHOOSE c \in vcs : c.n = n).t)] : r \in core.rows }]
+      [] t.k = "check" ->
+            \* check(x ...): the viral attributes of the validated operand x (a comparison: they went through the rule there) are
+            \* copied to the reported datapoints; those of the imbalance operand play no part
+            LET x == EvalVP(t.x, env, rules)
+                envS == [n \in DOMAIN env |-> IF IsDS(env[n]) THEN StripV(env[n]) ELSE env[n]]
+                core == EvalV([t EXCEPT !.x = V_(Tmp(1))], Bind(envS, <<Tmp(1)>>, <<IF IsDS(x) THEN StripV(x) ELSE x>>))
+            IN  IF IsE(x) THEN x ELSE Attach(core, <<x>>, "copy", rules)
+      [] t.k = "dpcheck" \/ (t.k = "hier" /\ t.check) ->
+            \* check_datapoint / check_hierarchy: every reported datapoint carries the viral attributes of the operand datapoint it
+            \* reports on (for check_hierarchy the left code item's), through the rule applied ROW-WISE over the RESULT: an
+            \* enumerated rule per datapoint, an aggregate rule over all reported datapoints (one per rule and datapoint)
+            LET x == EvalVP(t.ds, env, rules)
+                core == EvalV([t EXCEPT !.ds = V_(Tmp(1))], Bind(env, <<Tmp(1)>>, <<StripV(x)>>))
+                vcs == { c \in x.comps : c.r = "V" }
+                vn == { c.n : c \in vcs }
+                srcV(r, n) == LET hit == { q \in x.rows : Rst(q, IdsOf(x)) = Rst(r, IdsOf(x)) }
+                              IN  IF hit = {} THEN Null ELSE (CHOOSE q \in hit : TRUE)[n]
+                bag(n) == { [row |-> r, v |-> srcV(r, n)] : r \in core.rows }
+                val(r, n) == IF IsAgg(rules[n]) THEN AggGroup(rules[n].fn, bag(n), "v", (CHOOSE c \in vcs : c.n = n).t)
+                             ELSE EnumSingle(rules[n], srcV(r, n))
+            IN  IF IsE(x) THEN x ELSE IF IsE(core) \/ ~IsDS(core) THEN core
+                ELSE [comps |-> core.comps \cup vcs,
+                      rows |-> { [n \in AllNames(core) \cup vn |-> IF n \in AllNames(core) THEN r[n] ELSE val(r, n)] : r \in core.rows }]
       [] t.k = "hier" /\ ~t.check ->
             \* hierarchy: a computed item gets the rule over the viral values of its children - the datapoints of the operand for a leaf
             \* item, the values already computed for an item that is itself computed - per key of the other identifiers; datapoints
